@@ -41,6 +41,35 @@ def slot_opened_last(prog, r):
         r.from_reports(exg.reports, keyfn=lambda k, rep: 'gate:%s' % k)
     else:
         r.ok('gate:slot-opened-last')
+    # ... and the gate is the last thing that can refuse the addressed message: between its success and the
+    # staging of the message only out-of-memory may fail (any other error executes the transaction, keeping
+    # the slot the gate opened or the consumption of the slot a reply used)
+    dm = prog.fn('bus_dispatch_matches', 'bus/dispatch.c')
+    gates = {c['id'] for b, i, c in dm.calls(GATE)}
+    if not gates:
+        raise AnalysisBroken('bus_dispatch_matches no longer calls the policy gate')
+    OOM = 'org.freedesktop.DBus.Error.NoMemory'
+
+    def on_event_d(user, ev, ctx):
+        if ev['ev'] == 'call':
+            c = ev['e']
+            if c.get('callee') in ('bus_transaction_send', 'bus_transaction_send_from_driver'):
+                return 'staged'
+            if user != 'staged' and c.get('callee') in ('dbus_set_error', 'dbus_set_error_const') \
+                    and any(ctx.result_known(g) is True for g in gates):
+                nm = c['args'][1] if len(c['args']) > 1 else None
+                if not (nm is not None and nm.get('k') == 'str' and nm.get('v') == OOM):
+                    ctx.report('bus_dispatch_matches refuses the addressed message with %s after the policy gate '
+                               'admitted it (and recorded or consumed its reply slot): the refusal does not cancel '
+                               'the transaction, so the caller is told the call failed while its pending-reply slot '
+                               'stays taken' % (nm.get('v') if nm is not None and nm.get('k') == 'str' else estr(nm)),
+                               c['line'], key='refuse-after-gate')
+        return user
+    exd = Explorer(dm, init=None, on_event=on_event_d, calls={GATE}, track='auto', cap=400000).run()
+    if exd.reports:
+        r.from_reports(exd.reports, keyfn=lambda k, rep: 'dispatch_matches:%s' % k)
+    else:
+        r.ok('dispatch_matches:gate-is-last-refusal')
 
 
 def c09_1(ck, prog):
